@@ -124,3 +124,68 @@ pub struct Pt {
 pub fn absolute_tolerance_pt(p: &Pt, q: &Pt) -> bool {
     (p.x - q.x).abs() < 1e-9 && p.y * q.y > p.x
 }
+
+// ---- evaluator model controls: each function has a known truth table (selftest/models.py compares the explored paths with it)
+pub mod models {
+    use std::cmp::Ordering;
+
+    pub fn zip_both(a: Option<i32>, b: Option<i32>) -> i32 {
+        a.zip(b).map_or(0, |(_x, _y)| 1)
+    }
+
+    pub fn filter_pos(a: Option<i32>) -> i32 {
+        match a.filter(|x| *x > 0) {
+            Some(_) => 1,
+            None => 0,
+        }
+    }
+
+    pub fn or_else_chain(a: Option<i32>, b: Option<i32>) -> i32 {
+        match a.or_else(|| b) {
+            Some(_) => 1,
+            None => 0,
+        }
+    }
+
+    pub fn then_some_flag(c: bool) -> i32 {
+        c.then(|| 7).unwrap_or(3)
+    }
+
+    pub fn try_op(a: Option<i32>) -> Option<i32> {
+        let x = a?;
+        Some(x)
+    }
+
+    pub fn three_way(a: f64, b: f64) -> i32 {
+        match a.partial_cmp(&b).filter(|o| o.is_ne()) {
+            Some(Ordering::Less) => -1,
+            Some(Ordering::Greater) => 1,
+            _ => 0,
+        }
+    }
+
+    pub fn ord_then(a: i32, b: i32, c: i32, d: i32) -> bool {
+        a.cmp(&b).then_with(|| c.cmp(&d)).is_gt()
+    }
+
+    pub fn is_some_and_pos(a: Option<i32>) -> bool {
+        a.is_some_and(|x| x > 0)
+    }
+
+    pub fn array_map(a: i32, b: i32) -> i32 {
+        let [x, y] = [a, b].map(|v| v + 1);
+        x - y
+    }
+
+    pub fn filter_loop(v: &[i32]) -> i32 {
+        let mut n = 0;
+        for x in v.iter().filter(|x| **x > 0) {
+            if *x > 0 {
+                n += 1;
+            } else {
+                n -= 100;
+            }
+        }
+        n
+    }
+}
